@@ -72,6 +72,9 @@ fn root<T: Scalar>(spec: &Spec) -> S<T> {
 }
 
 fn check_tree<T: Scalar>(spec: &Spec, depth: usize, st: &mut Stats, sink: &Sink) {
+    if build_or_report::<T>("C10", spec, sink).is_none() {
+        return;
+    }
     let letters: Vec<f64> = (0..9).map(|i| i as f64).collect();
     let r = root::<T>(spec);
     st.configs += 1;
@@ -86,6 +89,9 @@ fn check_tree<T: Scalar>(spec: &Spec, depth: usize, st: &mut Stats, sink: &Sink)
 }
 
 fn check_cycles<T: Scalar>(spec: &Spec, period: usize, len: usize, st: &mut Stats, sink: &Sink) {
+    if build_or_report::<T>("C10", spec, sink).is_none() {
+        return;
+    }
     let letters: Vec<f64> = (0..9).map(|i| i as f64).collect();
     st.configs += 1;
     for cyc in cycles(&letters, period) {
